@@ -207,9 +207,10 @@ class global_variables():
 
         if N is not None:
             self.N = N
-            self.t = np.linspace(0, N*self.sps*self.dt, N*self.sps, endpoint=True)
-            self.dw = 2*pi*self.fs/(N*self.sps)
-            self.w = 2*pi*fftshift(fftfreq(N*self.sps))*self.fs
+        if self.N is not None: # keep t, dw and w consistent with the sps/fs now in force, also when `N` is not passed again
+            self.t = np.linspace(0, self.N*self.sps*self.dt, self.N*self.sps, endpoint=True)
+            self.dw = 2*pi*self.fs/(self.N*self.sps)
+            self.w = 2*pi*fftshift(fftfreq(self.N*self.sps))*self.fs
         
         self.wavelength = wavelength
         self.f0 = c/wavelength
